@@ -48,6 +48,7 @@ func vfSameArray(a, b []byte) bool
 func vfOff(b []byte) uint64
 func vfTime(name string) time.Time
 func vfTimeOrZero(name string) time.Time
+func vfTimeAbs(name string) time.Time
 func vfPreempts() int
 func vfThreadsBlocked() int
 func vfThreadsLive() int
